@@ -324,7 +324,13 @@ impl<
         let (starts, ends) = (self.civil_starts(), self.civil_ends());
         assert!(!starts.is_empty(), "transitions is non-empty");
         let this_index = match starts.binary_search(&dtt) {
-            Err(0) => unreachable!("impossible to come before DateTime::MIN"),
+            // A civil datetime can sort before the civil start of the first
+            // (dummy) transition, which is `Timestamp::MIN` shifted by the
+            // first offset and thus usually after `DateTime::MIN`. Treat it as
+            // belonging to that transition, which is always unambiguous.
+            // Converting it to a timestamp then reports an out-of-range error
+            // instead of panicking here.
+            Err(0) => 0,
             Ok(i) => i,
             Err(i) => i.checked_sub(1).expect("i is non-zero"),
         };
